@@ -530,6 +530,13 @@ class MutatorFlow(PyFlow):
         args = self.notify_args(call)
         for role, a in args.items():
             lab = self.prov(a, env, phase)
+            if isinstance(a, ast.Name) and a.id == self.selfname:
+                self.flag(("delta-args", "live-alias", role),
+                          f"`{role}` argument of notify() is the live "
+                          f"container itself, not a snapshot: the event a "
+                          f"listener keeps changes with every later "
+                          f"mutation (replaying it no longer yields the "
+                          f"state after this operation)")
             if role == "added":
                 bad = lab & {R, NS, OPRE}
                 if bad:
